@@ -140,7 +140,14 @@ def run(chk):
                       impl_fn="impl_dump_for_tree", nontrivial=lambda c, r: r[0] == "ok" and len(r[1]) >= 1, oracle=oracle_d)
     rcases = [{"path": p, "root": r} for p in S.XPATHS + ["Server/x86_64/os", "Server/x86_64/os/", "/x/y", "x//y"]
               for r in ["Server/x86_64/os", "Server/x86_64/os/", "Server/x86_64/os///", "Server", "", "/", "//", "Server/x86_64/o", "x", "/x"]]
+    # an absolute base that lines up with the working directory ("<cwd>" is replaced by os.getcwd() in the implementation run):
+    # the stored paths are relative, so nothing may be stripped
+    rcases += [{"path": p, "root": r} for p in ["Server/x86_64/os/GPL", "GPL", "a/b"] for r in ["<cwd>", "<cwd>/", "<cwd>/Server/x86_64/os", "<cwd>/a"]]
+
     def oracle_rel(c, r):
+        if c["root"].startswith("<cwd>"):
+            return None if r == c["path"] else "_relative_to(%r, <working directory>%s) = %r: an absolute base cannot prefix a relative path" % (
+                c["path"], c["root"][5:], r)
         # the base path, however many slashes it ends in, is stripped exactly when it is a prefix on a component boundary
         base = c["root"].rstrip("/")
         want = c["path"][len(base) + 1:] if c["path"].startswith(base + "/") else c["path"]
